@@ -23,6 +23,14 @@ where
   F: core::ops::FnMut(&mut T) -> bool,
 {
   let old_len = vec.len();
+  if old_len > 0 {
+    // like `drain`: nothing is visible through the vector while the iterator is alive, so
+    // leaking the iterator can only leak elements, never expose moved-out ones
+    unsafe {
+      vec.set_len(0);
+    }
+  }
+
   DrainFilter {
     vec,
     pred,
